@@ -200,7 +200,7 @@ def run_wire(pid, tier, seed, replay):
                     jobs.append((["gen-wire", "--profile", prof, "--count", 15, "--seed", seed * 100 + 40 + 10 * k + i, "--seg", "pairs"],
                                  "WireTrace", "wire-pairs-%s-%d.ndjson" % (prof, k), "decoder streams %s, all pairs of cuts" % prof, None))
     if pid in ("C09", "C12", "C13", "C11"):
-        profs = {"C09": ["tpipeline", "todd", "toversize", "tunimpl", "twrap"], "C12": ["tpipeline", "tquit", "tunimpl", "todd"],
+        profs = {"C09": ["tpipeline", "todd", "toversize", "tunimpl", "twrap", "tflip"], "C12": ["tpipeline", "tquit", "tunimpl", "todd"],
                  "C13": ["toversize", "tbig", "tpipeline"], "C11": ["tpipeline", "tunimpl", "toversize"]}[pid]
         for i, prof in enumerate(profs):
             cnt = (10 if pid != "C13" else 14) * n
@@ -325,7 +325,11 @@ def run_srv(pid, tier, seed, replay):
         for i in range(n):
             jobs.append((["tcp-fault", "--count", 1, "--seed", seed * 100 + i, "--cuts", "sample" if quick else "all"],
                          "FaultTrace", "fault-%d.ndjson" % i, "faults on stream #%d" % i, ports(1 + i)))
-        required = ["close.all", "halfclose.all", "reset.prefix", "corrupt.all", "silence.all", "cut.closed", "bulky.contained"]
+        # one corrupted header byte (length fields, magic, data type, opcode) in a complete request that would remove or
+        # rewrite an item: not executed, everything sent before it is
+        jobs.append((["tcp-wire", "--profile", "tflip", "--count", 40 if quick else 400, "--seed", seed * 100 + 80, "--seg", "few"], "WireTcpTrace",
+                     "tcp-tflip.ndjson", "corrupted header byte in a complete request", ports(20)))
+        required = ["close.all", "halfclose.all", "reset.prefix", "corrupt.all", "silence.all", "cut.closed", "bulky.contained", "closed.odd", "closed.invalid"]
         run.extra["tlc_generated_cases_replayed"] = ncases
     else:
         raise ToolError("unknown server property " + pid)
@@ -573,6 +577,11 @@ def conc_eviction_extra(pid, tier, seed):
         jobs.append((["conc", "--kind", "C14", "--set", "eviction", "--count", 15 if quick else 60, "--seed", seed * 10 + i,
                       "--max-runs", 400 if quick else 3000, "--random-runs", 100], "MemcLin", "evict-%d.ndjson" % i,
                      "concurrent stores under eviction pressure #%d" % i, None))
+    # accounting under races with the clock: an expired record being collected, a store of another size, and a second
+    # passing at any point (all schedules of 60 three-client programs)
+    for p in range(4):
+        jobs.append((["conc", "--kind", "C14", "--set", "clocked", "--part", p, "--parts", 4, "--max-runs", 400 if quick else 6000, "--random-runs", 60], "MemcLin",
+                     "clocked-%d.ndjson" % p, "lazy collection racing stores and the clock, part %d" % p, None))
 
     def one(j):
         return job_trace(j[0], j[1], j[2], run.dir, j[3], lin=True)
@@ -580,9 +589,10 @@ def conc_eviction_extra(pid, tier, seed):
         absorb_lin(run, job, res)
     bad = []
     for (job, res, v) in run.bad:
-        path = write_replay(pid, {"driver": job.get("driver"), "args": job.get("args"), "spec": "MemcLin", "property": pid, "violation": v})
-        log("VIOLATION property=%s replay=%s" % (pid, path))
-        log("  %s: %s" % (job.get("desc"), json.dumps(v)[:200]))
+        if len(bad) < 4:
+            path = write_replay(pid, {"driver": job.get("driver"), "args": job.get("args"), "spec": "MemcLin", "property": pid, "violation": v})
+            log("VIOLATION property=%s replay=%s" % (pid, path))
+            log("  %s: %s" % (job.get("desc"), json.dumps(v)[:200]))
         bad.append(v)
     return len(bad), {"concurrent_eviction": {"histories": run.traces, "schedules_executed": run.extra.get("schedules_executed", 0),
                                               "accepted": run.cov.get("history.linearizable", 0),
